@@ -13,6 +13,7 @@ PROP = {
         "quick": [B("stable"), B("nightly", 0.25, False)],
         "thorough": [B("stable"), B("nightly", 0.25, False)],
     },
+    "volume": {"quick": 3},
     "technique": "property-based testing: proptest generators (uniform and axis-aligned axes, dense/huge/tiny angles, all 24 Euler orders with middle angles constructed at and around the singularity, "
                  "uniform and near-singular quaternions) against a reference written in the harness in double-double arithmetic (Rodrigues formula, elementary rotations and their products parsed from the variant NAME, "
                  "quaternion algebra), in the SSE2, scalar-math, libm and nightly core-simd builds",
